@@ -389,6 +389,23 @@ class Impl:
             return "raise"
         return "raise"      # (an order that happens to admit a schedule after all: no claim either way)
 
+    def cmd_draw(self, ts):
+        """The caller looks at the schedule being built: a Gantt chart of the dispatcher's LIVE schedule is drawn (and thrown away).
+        Looking changes nothing."""
+        import warnings
+        import matplotlib
+        matplotlib.use("Agg")
+        import matplotlib.pyplot as plt
+        from job_shop_lib.visualization import plot_gantt_chart
+        with warnings.catch_warnings():
+            warnings.simplefilter("ignore")
+            try:
+                fig, _ax = plot_gantt_chart(self.dispatcher.schedule)
+                plt.close(fig)
+            except Exception as e:  # pylint: disable=broad-except
+                return f"draw-raised {type(e).__name__}"
+        return "ok"
+
     def cmd_stamp(self, ts):
         """The caller annotates the dispatcher's schedule: `Schedule.metadata` is the user's dictionary (the library's solvers put
         their makespan, status and time there).  Whatever it says, it is a note - not a source of truth for anybody."""
